@@ -1225,6 +1225,87 @@ mon_stubs! {
     }
 }
 
+// ---- which sample index a thread's allocation record is stored under (C08: "each thread's sample reports only that
+// ---- thread's own allocations"; C02: "the allocation figures attributed to a sample")
+
+struct KGhost {
+    magic: u64,
+    n: usize,
+    keys: [u32; 4],
+    sizes: [u64; 4],
+}
+static mut KG: KGhost = KGhost { magic: 0xD1FA_57A7_1C00_0803, n: 0, keys: [0; 4], sizes: [0; 4] };
+
+/// Recording stand-in for `HashMap::insert` (keeps hashbrown + SipHash out of the query): logs the key and the
+/// allocation record's alloc-bytes figure.
+fn hm_insert_rec<K, V, S, A: std::alloc::Allocator>(_m: &mut std::collections::HashMap<K, V, S, A>, k: K, v: V) -> Option<V> {
+    unsafe {
+        assert!(std::mem::size_of::<K>() == 4 && std::mem::size_of::<V>() == std::mem::size_of::<ThreadAllocInfo>());
+        let key: u32 = std::mem::transmute_copy(&k);
+        let info: &ThreadAllocInfo = &*(&v as *const V as *const ThreadAllocInfo);
+        if KG.n < 4 {
+            KG.keys[KG.n] = key;
+            KG.sizes[KG.n] = info.tallies.get(AllocOp::Alloc).size;
+        }
+        KG.n += 1;
+    }
+    std::mem::forget(k);
+    std::mem::forget(v);
+    None
+}
+
+macro_rules! map_stubs {
+    ($(#[$m:meta])* fn $name:ident() $body:block) => {
+        $(#[$m])*
+        #[kani::proof]
+        #[kani::stub(crate::time::timestamp::tsc::TscTimestamp::start, ts_start)]
+        #[kani::stub(crate::time::timestamp::tsc::TscTimestamp::end, ts_end)]
+        #[kani::stub(crate::time::timestamp::tsc::TscTimestamp::duration_since, dur_stub)]
+        #[kani::stub(crate::time::fence::full_fence, nop)]
+        #[kani::stub(crate::time::fence::compiler_fence, nop)]
+        #[kani::stub(std::hash::RandomState::new, rs_stub)]
+        #[kani::stub(crate::util::thread::pool::ThreadPool::par_extend, par_extend_seq)]
+        #[kani::stub(crate::time::timer::Timer::bench_overheads, overheads_zero)]
+        #[kani::stub(crate::time::timer::Timer::precision, precision_ghost)]
+        #[kani::stub(std::collections::HashMap::insert, hm_insert_rec)]
+        #[kani::stub(std::sync::Barrier::wait, wait_stub)]
+        fn $name() $body
+    };
+}
+
+// @cell props=C08,C02 tier=quick kind=core timeout=2400 mem=20 cls=K
+// @desc bench_values on T = 2 threads (sequentialised), n = 3, s = 1 (two rounds, four samples); thread i allocates
+// @desc 11 + 2i bytes inside its timed section: the allocation record of the k-th recorded sample is stored under
+// @desc index k and carries that thread's own bytes (HashMap::insert observed by a recording stub)
+map_stubs! {
+    #[kani::unwind(6)]
+    fn c08_alloc_record_keyed_by_own_sample_t2() {
+        unsafe { G.round_cut = 3; }
+        let sh = shared(Action::Bench);
+        let options = BenchOptions { sample_count: Some(3), sample_size: Some(1), ..Default::default() };
+        let mut ctx = BenchContext::new(&sh, &options, NonZeroUsize::new(2).unwrap());
+        Bencher::new(&mut ctx)
+            .with_inputs(|| unsafe { G.gens += 1; G.next += 1; tls_tally_alloc(7); 7u8 })
+            .bench_values(|x: u8| unsafe {
+                G.calls += 1;
+                G.sample_calls += 1;
+                tls_tally_alloc(11 + 2 * G.cur_thread as usize);
+                x
+            });
+        unsafe {
+            assert_eq!(G.rounds, 2);
+            assert_eq!(ctx.samples.time_samples.len(), 4);
+            assert_eq!(KG.n, 4);
+            assert!(KG.keys[0] == 0 && KG.keys[1] == 1 && KG.keys[2] == 2 && KG.keys[3] == 3);
+            assert!(KG.sizes[0] == 11 && KG.sizes[1] == 13 && KG.sizes[2] == 11 && KG.sizes[3] == 13);
+            assert_eq!(KG.magic, 0xD1FA_57A7_1C00_0803);
+            assert_eq!(G.magic, MAGIC);
+        }
+        kani::cover!(true);
+        std::mem::forget(ctx);
+    }
+}
+
 // ---- per-input counters through the loop (C01 counting clause, C05 per-iteration counter value)
 
 // @cell props=C05,C01 tier=thorough kind=attempt timeout=900 mem=20 cls=K
@@ -1379,6 +1460,51 @@ mon_stubs! {
 mon_stubs! {
     #[kani::unwind(6)]
     fn c01_recorder_refs_inputs_only_counted() { recorder_direct(2, 3, false) }
+}
+
+/// Zero-sized fast path of the recorder with an input counter attached (identity replaced by counters).
+fn recorder_direct_zst(smax: usize) {
+    let s: usize = kani::any();
+    kani::assume(s <= smax);
+    unsafe {
+        G.rounds = 1;
+        G.tasks = 1;
+    }
+    let sh = shared(Action::Bench);
+    let options = BenchOptions::default();
+    let ctx = BenchContext::new(&sh, &options, NonZeroUsize::MIN);
+    let mut count_input = |_z: &ZstIn| unsafe {
+        assert!(G.phase == 0, "input counted inside or after the timed section");
+        assert!(G.sample_counted < G.gens as u8, "input shown to the counter before it was generated");
+        G.sample_counted += 1;
+    };
+    let rec = ctx.sample_recorder(
+        || unsafe { assert!(G.phase == 0); G.gens += 1; ZstIn },
+        |_x: &UnsafeCell<MaybeUninit<ZstIn>>| unsafe { assert!(G.phase == 1); G.calls += 1; G.sample_calls += 1; 5u8 },
+        |x: &UnsafeCell<MaybeUninit<ZstIn>>| unsafe { (*x.get()).assume_init_drop() },
+    );
+    let ([a, e], _info) = rec(s, None, &mut count_input);
+    assert!(a <= e);
+    unsafe {
+        assert!(G.phase == 2);
+        assert_eq!(G.gens as usize, s);
+        assert_eq!(G.sample_counted as usize, s, "every generated input is shown once to the input counter");
+        assert_eq!(G.calls as usize, s);
+        assert_eq!(G.zst_in_drops as usize, s);
+        assert_eq!(G.magic, MAGIC);
+    }
+    kani::cover!(s == smax);
+    kani::cover!(s == 0);
+    std::mem::forget(ctx);
+}
+
+// @cell props=C01,C05 tier=quick kind=core timeout=1800 mem=14 cls=K ignore_re=write_bytes::<.*(ZstIn|ZstOut)>\|memset.destination.region.writeable
+// @desc sample recorder called directly, zero-sized fast path (zero-sized input with destructor, plain output), sample
+// @desc size symbolic 0..=3, an input counter attached: every generated input is shown exactly once to the counter
+// @desc before the start timestamp, used by one call, dropped once after the end timestamp
+mon_stubs! {
+    #[kani::unwind(6)]
+    fn c01_recorder_zst_counted() { recorder_direct_zst(3) }
 }
 
 // @cell props=C08,C02 tier=quick kind=core timeout=1800 mem=28 cls=K
